@@ -134,8 +134,26 @@ class WireRun:
         return res
 
     def run_driver(self, exe, lines):
-        rc, out = core.sh([exe], input='\n'.join(lines) + '\n', timeout=600)
-        return rc, out.splitlines()
+        """One answer per request line.  A driver that hangs (a traversal that does not advance) or dies on one
+        request must not hide the others: on a timeout / crash / short output the lines are re-run one at a time
+        and the offending ones answer `st=TIMEOUT` / `st=CRASH` (which no specification line equals)."""
+        import subprocess
+        try:
+            rc, out = core.sh([exe], input='\n'.join(lines) + '\n', timeout=max(60, 2 * len(lines)))
+            outs = out.splitlines()
+            if rc == 0 and len(outs) == len(lines):
+                return rc, outs
+        except subprocess.TimeoutExpired:
+            pass
+        outs = []
+        for line in lines:
+            try:
+                rc1, o1 = core.sh([exe], input=line + '\n', timeout=20)
+                o1 = o1.splitlines()
+                outs.append(o1[0] if rc1 == 0 and len(o1) == 1 else 'st=CRASH rast=CRASH curst=CRASH rc=%d' % rc1)
+            except subprocess.TimeoutExpired:
+                outs.append('st=TIMEOUT rast=TIMEOUT curst=TIMEOUT')
+        return 0, outs
 
 
 def first_error(log):
